@@ -136,6 +136,25 @@ theorem scene_window (ao a sc t : Nat) (lines : List Line) :
       t ≤ r.start ∧ r.start ≤ r.stop ∧ r.stop ≤ (runScene env ao a sc t 0 lines).2.1 :=
   runScene_bnd env ao a sc t 0 lines
 
+/-- **The barrier waits for nothing else**: a scene with an action ends exactly when its last action stops — some
+record of the scene has that very stop time — and a scene without any action ends when it starts.  Together with
+`scene_window` (no record stops later): end of scene = the latest stop.  Whatever delays the next scene beyond that
+is the operating system's (`sceneJitter`) or the tempo (`waitUntil`), never the barrier. -/
+theorem barrier_releases_at_last_stop (ao a sc t : Nat) (lines : List Line) :
+    ((runScene env ao a sc t 0 lines).1 = [] ∧ (runScene env ao a sc t 0 lines).2.1 = t) ∨
+    ∃ r ∈ (runScene env ao a sc t 0 lines).1,
+      r.stop = (runScene env ao a sc t 0 lines).2.1 ∧
+      ∀ q ∈ (runScene env ao a sc t 0 lines).1, q.stop ≤ r.stop := by
+  rcases runScene_end_attained env ao a sc t 0 lines with h | ⟨r, hr, he⟩
+  · exact Or.inl h
+  · exact Or.inr ⟨r, hr, he, fun q hq => he ▸ (runScene_bnd env ao a sc t 0 lines q hq).2.2⟩
+
+/-- a line ends exactly when its last performed step stops: nothing is awaited after it -/
+theorem line_ends_at_last_stop (ao a sc ln t : Nat) (l : Line) :
+    ((runLine env ao a sc ln l.actor 0 t l.steps).1 = [] ∧ (runLine env ao a sc ln l.actor 0 t l.steps).2.1 = t) ∨
+    ∃ r ∈ (runLine env ao a sc ln l.actor 0 t l.steps).1, r.stop = (runLine env ao a sc ln l.actor 0 t l.steps).2.1 :=
+  runLine_end_attained env ao a sc ln l.actor 0 t l.steps
+
 /-! ## Non-vacuity: a concrete performance (`Shk.Prompt.Ex`) -/
 
 -- seven actions are performed, in three act occurrences (act 2 is played twice)
@@ -170,5 +189,9 @@ example : tempoOk Ex.play (actStartOf Ex.env Ex.play Ex.rp 20) (perform Ex.env E
 example : barrierOk [⟨⟨0, 0, 0, 0, 0⟩, "a", "x", 0, 10, true, false⟩, ⟨⟨0, 0, 1, 0, 0⟩, "a", "x", 9, 12, true, false⟩] = false := by
   decide
 example : tempoOk Ex.play (fun _ => 0) [⟨⟨0, 0, 1, 0, 0⟩, "a", "x", 49, 60, true, false⟩] = false := by decide
+
+-- the scene of the example ends with its slowest line
+example : ∃ r ∈ (runScene Ex.env 0 0 0 3 0 [⟨"a", [⟨"x", false⟩, ⟨"y", true⟩]⟩, ⟨"b", [⟨"z", false⟩]⟩]).1,
+    r.stop = (runScene Ex.env 0 0 0 3 0 [⟨"a", [⟨"x", false⟩, ⟨"y", true⟩]⟩, ⟨"b", [⟨"z", false⟩]⟩]).2.1 ∧ 3 < r.stop := by decide
 
 end Shk.C04
